@@ -268,6 +268,35 @@ func TestVerifCodecEngine(t *testing.T) {
 			o["input_after"] = fromReceipt(rc) // hold-and-compare: the receipt after all four encoders and both decoders ran
 			// the version mix-up F17 is about: what a V2-era receipt looks like after a V1 store round trip
 			o["h1"] = hx((&ReceiptMerkle{rc, 0, DummyBlockVersionner(c.Ver)}).GetHash())
+		case "RD": // a store decoder on arbitrary bytes (truncations, bit flips of a valid encoding)
+			data := unhex(c.Raw)
+			v2 := c.Ver >= 2
+			guarded(o, "d", func() {
+				var probe, r Receipt
+				var evCount uint32
+				if v2 {
+					_, evCount = probe.unmarshalBodyV2(exact(data))
+				} else {
+					_, evCount = probe.unmarshalBody(exact(data))
+				}
+				if evCount > 4096 {
+					o["d_hugecount"] = evCount
+					return
+				}
+				var rest []byte
+				var err error
+				if v2 {
+					rest, err = r.unmarshalStoreBinaryV2(exact(data))
+				} else {
+					rest, err = r.unmarshalStoreBinary(exact(data))
+				}
+				if err != nil {
+					o["d_err"] = err.Error()
+					return
+				}
+				o["d"] = fromReceipt(&r)
+				o["d_rest"] = hx(rest)
+			})
 		case "RS": // receipt list of a block at fork version Ver, with or without bloom
 			rs := &Receipts{}
 			rs.SetHardFork(DummyBlockVersionner(c.Ver), 1)
